@@ -21,6 +21,15 @@ pub const SPEC_MAX_PRICE: i64 = 1 << 30;
 /// what changes is that the implementation's arithmetic runs next to the top of the `u32` range.
 pub static PRICE_OFFSET: std::sync::atomic::AtomicU32 = std::sync::atomic::AtomicU32::new(0);
 
+/// Large-volume regime (DESIGN.md 3.6): one specification unit of volume is `VOL_SCALE` in the real book (every volume
+/// handed to the book is multiplied, every volume it reports is divided).  Matching is linear in the volumes, so the
+/// specification's outcome is the same; what changes is that the implementation's volume arithmetic runs above 2^31.
+pub static VOL_SCALE: std::sync::atomic::AtomicU32 = std::sync::atomic::AtomicU32::new(1);
+
+pub fn vol_scale() -> u32 {
+    VOL_SCALE.load(std::sync::atomic::Ordering::Relaxed)
+}
+
 pub fn price_offset() -> u32 {
     PRICE_OFFSET.load(std::sync::atomic::Ordering::Relaxed)
 }
